@@ -61,8 +61,21 @@ theorem fire_openHs_inert (s : S) (h : s.st ≠ .connecting) :
 theorem timers_inert_after_close (s : S) (k : TK) (h : s.st = .closed) :
     (fire s k).log = s.log ∧ (fire s k).st = .closed ∧ (fire s k).wasClean = s.wasClean ∧
     (fire s k).notClean = s.notClean ∧ (fire s k).remoteCloseCode = s.remoteCloseCode := by
-  cases k <;> simp [fire, h, dropConnection, sendAutoPing, sendPing, sendTick, S.timer]
-  all_goals (repeat' split) <;> simp_all [S.emit, S.timer]
+  cases k
+  · simp [fire, h]
+  · simp [fire, h]
+  · simp [fire, h]
+  · simp [fire, h]
+  · -- the next-ping timer: no ping goes out on a closed connection, only bookkeeping
+    have hp : sendPing (beginAutoPing s) ((beginAutoPing s).pingPending.getD []) = beginAutoPing s := by
+      unfold sendPing
+      rw [if_pos (by simp [beginAutoPing, h])]
+    simp only [fire, sendAutoPing, hp]
+    split <;> simp [armPingTimeout, S.timer, beginAutoPing, h]
+  · simp only [fire, sendTick]
+    split
+    · simp [S.timer, S.emit, h]
+    · simp [h]
 
 end Abverif.Ws
 
@@ -82,17 +95,17 @@ theorem sendAutoPing_tCloseHs (s : S) : (sendAutoPing s).tCloseHs = s.tCloseHs :
   unfold sendAutoPing
   dsimp only
   split
-  · simp only [S.timer]
-    rw [(sendPing_SendEq _ _).tCloseHs]
-  · rw [(sendPing_SendEq _ _).tCloseHs]
+  · show (sendPing (beginAutoPing s) _).tCloseHs = s.tCloseHs
+    rw [(sendPing_SendEq _ _).tCloseHs]; rfl
+  · rw [(sendPing_SendEq _ _).tCloseHs]; rfl
 
 theorem sendAutoPing_st (s : S) : (sendAutoPing s).st = s.st := by
   unfold sendAutoPing
   dsimp only
   split
-  · simp only [S.timer]
-    rw [(sendPing_SendEq _ _).st]
-  · rw [(sendPing_SendEq _ _).st]
+  · show (sendPing (beginAutoPing s) _).st = s.st
+    rw [(sendPing_SendEq _ _).st]; rfl
+  · rw [(sendPing_SendEq _ _).st]; rfl
 
 /-- firing any other timer leaves the closing-handshake timer armed, unless the connection got closed -/
 theorem fire_keeps_closeHs (s : S) (k : TK) (t : Nat × Nat) (h : s.tCloseHs = some t) (hk : k ≠ .closeHs) :
@@ -154,20 +167,36 @@ theorem close_timeout_drops (target fuel : Nat) (s : S) (D q : Nat)
     simp at this
     omega
 
-/-- the peer's close reply cancels the closing-handshake timer -/
+theorem afterCloseHandshake_tCloseHs (s : S) (a : Bool) (h : s.tCloseHs = none) :
+    (afterCloseHandshake s a).1.tCloseHs = none := by
+  unfold afterCloseHandshake
+  split
+  · unfold dropConnection; split <;> simp [S.emit, h]
+  · split
+    · simp [armServerDrop, S.timer, h]
+    · exact h
+
+/-- the peer's (acceptable) close reply cancels the closing-handshake timer -/
 theorem onCloseFrame_cancels_closeHs (s : S) (code : Option Nat) (reason : Option Bytes)
     (hst : s.st = .closing) (hc : ∀ c, code = some c → closeCodeInvalid c = false)
     (hr : ∀ r, reason = some r → utf8Valid r = true) :
     (onCloseFrame s code reason).1.tCloseHs = none := by
+  have h1 : closeCodeStep { s with remoteCloseCode := none, remoteCloseReason := none } code
+      = ({ s with remoteCloseCode := code, remoteCloseReason := none }, false) := by
+    unfold closeCodeStep
+    cases code with
+    | none => rfl
+    | some c => simp [hc c rfl]
+  have h2 : closeReasonStep { s with remoteCloseCode := code, remoteCloseReason := none } reason
+      = ({ s with remoteCloseCode := code, remoteCloseReason := reason }, false) := by
+    unfold closeReasonStep
+    cases reason with
+    | none => rfl
+    | some r => simp [hr r rfl]
   unfold onCloseFrame
-  cases code with
-  | none =>
-    cases reason with
-    | none => simp [hst]; split <;> simp [dropConnection, S.emit, S.timer] <;> split <;> simp
-    | some r => simp [hr r rfl, hst]; split <;> simp [dropConnection, S.emit, S.timer] <;> split <;> simp
-  | some c =>
-    cases reason with
-    | none => simp [hc c rfl, hst]; split <;> simp [dropConnection, S.emit, S.timer] <;> split <;> simp
-    | some r => simp [hc c rfl, hr r rfl, hst]; split <;> simp [dropConnection, S.emit, S.timer] <;> split <;> simp
+  simp only [h1, h2]
+  unfold closeStateStep
+  simp only [hst]
+  exact afterCloseHandshake_tCloseHs _ _ rfl
 
 end Abverif.Ws
